@@ -5,8 +5,8 @@ package main
 import (
 	"bytes"
 	"fmt"
-	"strings"
 	"math/rand"
+	"strings"
 
 	"github.com/256dpi/gomqtt/packet"
 
@@ -303,6 +303,35 @@ func (r *runner) splices(a, b []byte) {
 	}
 }
 
+// type x flags x remaining-length shape, deterministic part: all 256 first bytes with every boundary
+// shape of a 1..5-byte variable-length integer (minimal and non-minimal, smallest and largest of each width),
+// followed by up to 8 body bytes
+func (r *runner) headerGrid() {
+	shapes := [][]byte{
+		{0x00}, {0x01}, {0x02}, {0x03}, {0x7f},
+		{0x80, 0x00}, {0x82, 0x00}, {0x80, 0x01}, {0xff, 0x7f},
+		{0x80, 0x80, 0x00}, {0x82, 0x80, 0x00}, {0x80, 0x80, 0x01}, {0xff, 0xff, 0x7f},
+		{0x80, 0x80, 0x80, 0x00}, {0x82, 0x80, 0x80, 0x00}, {0x80, 0x80, 0x80, 0x01}, {0xff, 0xff, 0xff, 0x7f},
+		{0x80, 0x80, 0x80, 0x80, 0x00}, {0x82, 0x80, 0x80, 0x80, 0x00}, {0x80, 0x80, 0x80, 0x80, 0x01}, {0xff, 0xff, 0xff, 0xff, 0x7f},
+		{0x80}, {0xff, 0xff}, {0x80, 0x80, 0x80}, {0xff, 0xff, 0xff, 0xff}, {0x80, 0x80, 0x80, 0x80, 0x80},
+	}
+	for b0 := 0; b0 < 256; b0++ {
+		for _, s := range shapes {
+			in := append([]byte{byte(b0)}, s...)
+			if e, ok := extentOf(in); ok {
+				n := e - len(in)
+				if n > 8 {
+					n = 8
+				}
+				for i := 0; i < n; i++ {
+					in = append(in, byte(i&1)) // 00 01 00 01 ..: a packet id / a one-byte string where one fits
+				}
+			}
+			r.run("hdrgrid", in, false)
+		}
+	}
+}
+
 // type x flags x varint shapes of 1..5 bytes, followed by a short body
 func (r *runner) headerShapes(all bool) {
 	rng := r.c.Rng
@@ -323,7 +352,7 @@ func (r *runner) headerShapes(all bool) {
 	}
 	for b0 := 0; b0 < 256; b0++ {
 		for _, s := range shapes {
-			if !all && rng.Intn(20) != 0 {
+			if !all && rng.Intn(50) != 0 {
 				continue
 			}
 			in := append([]byte{byte(b0)}, s...)
@@ -466,7 +495,11 @@ func (r *runner) streams(n int) {
 		}
 		c.Stat("stream_ownership_checks", len(pkts))
 		if bad != "" {
-			c.Emit("direct stream_ownership FAIL case=stream%d stream=%s %s", i, hx.Hx(all), bad)
+			kind := "stream_read" // a valid stream was not read back as its packets
+			if strings.HasPrefix(bad, "packet_") {
+				kind = "stream_ownership" // a packet changed after later reads
+			}
+			c.Emit("direct %s FAIL case=stream%d stream=%s %s", kind, i, hx.Hx(all), bad)
 			c.Stat("ownership_fail", 1)
 		}
 	}
@@ -551,12 +584,186 @@ func (r *runner) headerWidths() {
 	}
 }
 
+// ---- the rule table: for every rule of the reference grammar (RefDecode.v) one hand-made packet
+// that obeys it and the smallest variants that break it, and for every documented leniency L1..L6 a
+// packet that uses it.  Deterministic: a dropped or added check is met on every run, not by chance.
+func lp(s string) []byte { return append([]byte{byte(len(s) >> 8), byte(len(s))}, s...) }
+
+func pk(first byte, body ...[]byte) []byte {
+	var b []byte
+	for _, x := range body {
+		b = append(b, x...)
+	}
+	return append(append([]byte{first}, putVarint(uint64(len(b)), 1)...), b...)
+}
+
+func rules() [][]byte {
+	u8 := func(x ...byte) []byte { return x }
+	conn := func(name string, level, flags byte, rest ...[]byte) []byte {
+		body := [][]byte{lp(name), u8(level, flags), u8(0, 30)}
+		return pk(0x10, append(body, rest...)...)
+	}
+	long := strings.Repeat("client-id-longer-than-23-bytes/#+$ ", 3)
+	out := [][]byte{
+		// CONNECT 3.1
+		conn("MQTT", 4, 0x02, lp("")), conn("MQTT", 4, 0x00, lp("c")), conn("MQIsdp", 3, 0x02, lp("c")), // L5
+		conn("MQTT", 4, 0x02, lp(long)), conn("MQTT", 4, 0x02, lp("\x00\xff\xc3")), // L6, L1
+		conn("MQTT", 3, 0x02, lp("c")), conn("MQIsdp", 4, 0x02, lp("c")), conn("MQTT", 5, 0x02, lp("c")),
+		conn("MQTX", 4, 0x02, lp("c")), conn("", 4, 0x02, lp("c")), conn("MQTT", 0, 0x02, lp("c")), conn("mqtt", 4, 0x02, lp("c")),
+		conn("MQTT", 4, 0x03, lp("c")), // reserved bit
+		conn("MQTT", 4, 0x00, lp("")),  // empty client id needs clean session
+		conn("MQTT", 4, 0x06, lp("c"), lp("w/t"), lp("bye")), conn("MQTT", 4, 0x2e, lp("c"), lp("w"), lp("")),
+		conn("MQTT", 4, 0x36, lp("c"), lp("w/#/+"), lp("\x00")),                                                                        // will qos 2 + retain, L2 topic
+		conn("MQTT", 4, 0x1e, lp("c"), lp("w"), lp("x")),                                                                               // will qos 3 with the will flag set
+		conn("MQTT", 4, 0x1a, lp("c")), conn("MQTT", 4, 0x0a, lp("c")), conn("MQTT", 4, 0x22, lp("c")), conn("MQTT", 4, 0x12, lp("c")), // will bits without will flag
+		conn("MQTT", 4, 0x06, lp("c"), lp(""), lp("x")), // empty will topic
+		conn("MQTT", 4, 0x06, lp("c"), lp("w")),         // will payload missing
+		conn("MQTT", 4, 0x82, lp("c"), lp("user")), conn("MQTT", 4, 0xc2, lp("c"), lp("user"), lp("pass")),
+		conn("MQTT", 4, 0x82, lp("c"), lp("")), conn("MQTT", 4, 0xc2, lp("c"), lp("u"), lp("")),
+		conn("MQTT", 4, 0x42, lp("c"), lp("pass")), // password without username
+		conn("MQTT", 4, 0x82, lp("c")),             // username flag, no username
+		conn("MQTT", 4, 0xee, lp("c"), lp("w"), lp("p"), lp("u"), lp("s")),
+		conn("MQTT", 4, 0x02, lp("c"), u8(0)),   // leftover byte inside the extent
+		conn("MQTT", 4, 0x02, lp("c"), lp("x")), // leftover field inside the extent
+		conn("MQTT", 4, 0xc2, lp("c"), lp("u"), lp("p"), u8(9)),
+		{0x10, 0}, {0x10, 2, 0, 4}, {0x11, 12, 0, 4, 'M', 'Q', 'T', 'T', 4, 2, 0, 10, 0, 0},
+		// CONNACK 3.2
+		pk(0x20, u8(0, 0)), pk(0x20, u8(1, 0)), pk(0x20, u8(1, 5)), pk(0x20, u8(0, 5)), // L6: session present with a refusal code
+		pk(0x20, u8(2, 0)), pk(0x20, u8(0x80, 0)), pk(0x20, u8(3, 0)), pk(0x20, u8(0, 6)), pk(0x20, u8(0, 255)),
+		pk(0x20, u8(0)), pk(0x20, u8(0, 0, 0)), pk(0x20), pk(0x21, u8(0, 0)), pk(0x28, u8(0, 0)),
+		// PUBLISH 3.3
+		pk(0x30, lp("a")), pk(0x30, lp("a/b"), u8(1, 2, 3)), pk(0x31, lp("a")), pk(0x38, lp("a")), pk(0x39, lp("a"), u8(0)), // L4: dup at qos 0
+		pk(0x32, lp("a"), u8(0, 1)), pk(0x3a, lp("a"), u8(255, 255), u8(7)), pk(0x34, lp("a"), u8(1, 0)), pk(0x3d, lp("a"), u8(0, 9), u8(0)),
+		pk(0x36, lp("a"), u8(0, 1)), pk(0x3e, lp("a"), u8(0, 1)), pk(0x37, lp("a"), u8(0, 1)), // qos 3
+		pk(0x32, lp("a"), u8(0, 0)), pk(0x34, lp("a"), u8(0, 0), u8(1)), // packet id 0
+		pk(0x32, lp("a")), pk(0x32, lp("a"), u8(0)), pk(0x34, lp("a"), u8(1)), // id missing / cut
+		pk(0x30, lp("")), pk(0x30, lp(""), u8(1)), pk(0x32, lp(""), u8(0, 1)), // empty topic
+		pk(0x30, lp("#")), pk(0x30, lp("a/+/b")), pk(0x30, lp("\xff\xfe")), pk(0x30, lp("a\x00b")), pk(0x30, lp("$SYS/x")), // L1, L2
+		pk(0x30, u8(0, 5, 'a')), pk(0x30, u8(0)), pk(0x30), pk(0x30, u8(0xff, 0xff), u8(1, 2)),
+		// PUBACK PUBREC PUBREL PUBCOMP UNSUBACK
+		pk(0x40, u8(0, 1)), pk(0x50, u8(1, 0)), pk(0x62, u8(0, 2)), pk(0x70, u8(255, 255)), pk(0xb0, u8(0, 3)),
+		pk(0x40, u8(0, 0)), pk(0x50, u8(0, 0)), pk(0x62, u8(0, 0)), pk(0x70, u8(0, 0)), pk(0xb0, u8(0, 0)),
+		pk(0x40, u8(0)), pk(0x40, u8(0, 1, 0)), pk(0x40), pk(0x62, u8(0)), pk(0xb0, u8(0, 1, 2)),
+		pk(0x41, u8(0, 1)), pk(0x42, u8(0, 1)), pk(0x60, u8(0, 1)), pk(0x63, u8(0, 1)), pk(0x72, u8(0, 1)), pk(0xb2, u8(0, 1)), pk(0x58, u8(0, 1)),
+		// SUBSCRIBE 3.8
+		pk(0x82, u8(0, 1), lp("a"), u8(0)), pk(0x82, u8(0, 1), lp("a/#"), u8(2), lp("+"), u8(1)),
+		pk(0x82, u8(0, 1), lp("a"), u8(0), lp("a"), u8(2)),                                                              // the same filter twice
+		pk(0x82, u8(0, 1), lp(""), u8(0)), pk(0x82, u8(0, 1), lp("a#b+"), u8(1)), pk(0x82, u8(0, 1), lp("\xff"), u8(1)), // L2, L1
+		pk(0x82, u8(0, 1)), pk(0x82, u8(0, 0), lp("a"), u8(0)), pk(0x82, u8(0, 1), lp("a"), u8(3)), pk(0x82, u8(0, 1), lp("a"), u8(0x80)),
+		pk(0x82, u8(0, 1), lp("a"), u8(0x42)), pk(0x82, u8(0, 1), lp("a")), pk(0x82, u8(0, 1), lp("a"), u8(1), u8(0)), pk(0x82, u8(0, 1), lp("a"), u8(1), u8(0, 5, 'b')),
+		pk(0x82, u8(0)), pk(0x82), pk(0x80, u8(0, 1), lp("a"), u8(0)), pk(0x83, u8(0, 1), lp("a"), u8(0)), pk(0x8a, u8(0, 1), lp("a"), u8(0)),
+		// SUBACK 3.9
+		pk(0x90, u8(0, 1), u8(0)), pk(0x90, u8(0, 1), u8(0, 1, 2, 0x80)), pk(0x90, u8(255, 255), u8(0x80)), // L6
+		pk(0x90, u8(0, 1)), pk(0x90, u8(0, 0), u8(0)), pk(0x90, u8(0, 1), u8(3)), pk(0x90, u8(0, 1), u8(0x81)), pk(0x90, u8(0, 1), u8(0xff)),
+		pk(0x90, u8(0, 1), u8(0, 4)), pk(0x90, u8(0, 1), u8(0x40)), pk(0x90, u8(0)), pk(0x90), pk(0x92, u8(0, 1), u8(0)), pk(0x91, u8(0, 1), u8(0)),
+		// UNSUBSCRIBE 3.10
+		pk(0xa2, u8(0, 1), lp("a")), pk(0xa2, u8(0, 1), lp("a"), lp("b/#")), pk(0xa2, u8(0, 1), lp("a"), lp("a")), pk(0xa2, u8(0, 1), lp("")),
+		pk(0xa2, u8(0, 1)), pk(0xa2, u8(0, 0), lp("a")), pk(0xa2, u8(0, 1), lp("a"), u8(0)), pk(0xa2, u8(0, 1), u8(0, 2, 'a')), pk(0xa2, u8(0)), pk(0xa2),
+		pk(0xa0, u8(0, 1), lp("a")), pk(0xa3, u8(0, 1), lp("a")),
+		// PINGREQ PINGRESP DISCONNECT, reserved types, remaining-length forms (L3)
+		pk(0xc0), pk(0xd0), pk(0xe0), pk(0xc0, u8(0)), pk(0xd0, u8(0, 0)), pk(0xe0, u8(1)), {0xc1, 0}, {0xd8, 0}, {0xe2, 0}, {0xcf, 0},
+		{0x00, 0}, {0xf0, 0}, {0x0f, 0}, {0xff, 0}, {0x00, 2, 0, 1}, {0xf0, 2, 0, 1},
+		{0xc0, 0x80, 0}, {0xc0, 0x80, 0x80, 0}, {0xc0, 0x80, 0x80, 0x80, 0}, {0xc0, 0x80, 0x80, 0x80, 0x80, 0}, {0xc0, 0x80, 0x80, 0x80, 0x80},
+		{0x40, 0x82, 0, 0, 1}, {0x40, 0x82, 0x80, 0x80, 0, 0, 1}, {0x40, 0x82, 0x80, 0x80, 0x80, 0, 0, 1}, {0x30, 0x83, 0x80, 0x80, 0, 0, 1, 'a'},
+		{0xc0, 0x80}, {0xc0, 0x80, 0x80}, {0xc0, 0x80, 0x80, 0x80}, {0xc0, 0xff, 0xff, 0xff, 0x7f}, {0x30, 0xff, 0xff, 0xff, 0x7f, 0, 1, 'a'},
+	}
+	return out
+}
+
+// packets of the other variable-size types beyond the 3- to 4-byte remaining-length boundary (2 MiB): too large
+// for the model runner's quadratic list loops, so they are judged here: Encode, DetectPacket on the header,
+// Decode consuming everything and re-encoding to the same bytes, packet.Decoder returning the same packet and
+// then the packet behind it; a read limit of exactly the size admits it, one byte less refuses it.
+func (r *runner) bigPackets() {
+	c := r.c
+	big := strings.Repeat("t", 65535)
+	sub := packet.NewSubscribe()
+	sub.ID = 7
+	uns := packet.NewUnsubscribe()
+	uns.ID = 8
+	for i := 0; i < 33; i++ {
+		sub.Subscriptions = append(sub.Subscriptions, packet.Subscription{Topic: big[:65535-i], QOS: packet.QOS(i % 3)})
+		uns.Topics = append(uns.Topics, big[:65535-i])
+	}
+	sa := packet.NewSuback()
+	sa.ID = 9
+	for i := 0; i < 2097150; i++ {
+		sa.ReturnCodes = append(sa.ReturnCodes, packet.QOS(i%3))
+	}
+	pub := packet.NewPublish()
+	pub.Message = packet.Message{Topic: "big", Payload: make([]byte, 2097152), QOS: 2, Retain: true}
+	pub.ID = 65535
+	for _, p := range []packet.Generic{sub, uns, sa, pub} {
+		bad := ""
+		func() {
+			defer func() {
+				if x := recover(); x != nil {
+					bad = fmt.Sprintf("panic_%v", x)
+				}
+			}()
+			buf, ok := encode(p)
+			if !ok || len(buf) < 2097152+5 || buf[4] >= 0x80 || buf[3] < 0x80 {
+				bad = "not_a_4_byte_remaining_length"
+				return
+			}
+			if l, t := packet.DetectPacket(buf[:5]); l != len(buf) || t != p.Type() {
+				bad = fmt.Sprintf("detect=%d,%d_want=%d,%d", l, t, len(buf), p.Type())
+				return
+			}
+			q, _ := p.Type().New()
+			n, err := q.Decode(append(append([]byte{}, buf...), 0xd0, 0x00))
+			if err != nil || n != len(buf) {
+				bad = fmt.Sprintf("decode_n=%d_err=%v", n, err)
+				return
+			}
+			if back, ok := encode(q); !ok || !bytes.Equal(back, buf) {
+				bad = "decoded_packet_does_not_re-encode_to_the_same_bytes"
+				return
+			}
+			stream := append(append([]byte{}, buf...), 0xd0, 0x00)
+			for _, lim := range []int{0, len(buf), len(buf) - 1} {
+				dec := packet.NewDecoder(bytes.NewReader(stream))
+				if lim > 0 {
+					dec.SetReadLimit(int64(lim))
+				}
+				x, err := dec.Read()
+				if lim == len(buf)-1 {
+					if err != packet.ErrReadLimitExceeded {
+						bad = fmt.Sprintf("limit_%d_below_size_%d_not_refused_err=%v", lim, len(buf), err)
+					}
+					continue
+				}
+				if err != nil {
+					bad = fmt.Sprintf("stream_read_limit=%d_err=%v", lim, err)
+					return
+				}
+				if back, ok := encode(x); !ok || !bytes.Equal(back, buf) {
+					bad = "stream_read_packet_differs"
+					return
+				}
+				if y, err := dec.Read(); err != nil || y.Type() != packet.PINGRESP {
+					bad = fmt.Sprintf("packet_after_it_lost_err=%v", err)
+					return
+				}
+			}
+		}()
+		c.Stat("big_packet_checks", 1)
+		if bad != "" {
+			c.Emit("direct spec_equiv FAIL case=big%d type=%d %s", p.Type(), p.Type(), strings.ReplaceAll(bad, " ", "_"))
+		}
+	}
+}
+
 func generate(r *runner) {
 	c := r.c
 	rng := c.Rng
 	r.headerWidths()
+	r.bigPackets()
 	for _, b := range corpus() {
 		r.run("corpus", b, true)
+	}
+	for _, b := range rules() {
+		r.run("rules", b, true)
 	}
 	// all 1- and 2-byte strings
 	for a := 0; a < 256; a++ {
@@ -602,8 +809,9 @@ func generate(r *runner) {
 	for i := 0; i < 100*rounds; i++ {
 		r.splices(encs[rng.Intn(len(encs))], encs[rng.Intn(len(encs))])
 	}
+	r.headerGrid()
 	r.headerShapes(c.Thorough())
-	n := 60000
+	n := 40000
 	if c.Thorough() {
 		n = 400000
 	}
